@@ -150,6 +150,25 @@ class CallMixin(object):
             kwargs[k.arg] = self.eval(st, k.value)
         return self.call_value(st, fv, args, kwargs, line)
 
+    def assume_region_invariants(self, st, h, t, elem):
+        """values read from a dictionary of an ownership region satisfy the (assumed, listed) data invariant of that region;
+        only while executing code, never inside specifications"""
+        from .model import REGION_INVARIANTS
+        inv = REGION_INVARIANTS.get(h.region) if getattr(h, 'region', None) else None
+        if not inv or getattr(self, '_in_region_inv', False) or any(getattr(f, 'spec_mode', False) for f in self.frames):
+            return
+        self._in_region_inv = True
+        try:
+            for expr in inv:
+                env = dict(getattr(self, 'top_env', {}))
+                env['VALUE'] = V(t, elem.with_opt(False) if elem is not None else None)
+                s2 = State(dict(st.vars), dict(st.heap), And(st.guard, t != ABSENT))
+                wd, truth = self.eval_spec(s2, expr, self.cur_contract, env, self.top_pre)
+                self.assume(st, z3.Implies(t != ABSENT, z3.Implies(wd, truth)))
+                self.trust('assumed data invariant of the values in region %s: %s' % (h.region, expr))
+        finally:
+            self._in_region_inv = False
+
     def call_value(self, st, fv, args, kwargs, line=0):
         if isinstance(fv, Closure):
             return self.call_closure(st, fv, args, kwargs)
@@ -873,6 +892,7 @@ class CallMixin(object):
             if elem is not None:
                 self.assume(st, z3.Implies(t != ABSENT, elem.assumption(t)))
             self.known_ref(st, t)
+            self.assume_region_invariants(st, h, t, elem)
             default = args[1] if len(args) > 1 else self.lift(None)
             hint = None
             if elem is not None:
